@@ -239,12 +239,16 @@ func Check() *common.Check {
 			})
 			// limits
 			fam := map[string]func(n int) string{
-				"parens":   func(n int) string { return "SELECT " + strings.Repeat("(", n) + "1" + strings.Repeat(")", n) },
-				"calls":    func(n int) string { return "SELECT " + strings.Repeat("f(", n) + "1" + strings.Repeat(")", n) },
-				"case":     func(n int) string { return "SELECT " + strings.Repeat("CASE WHEN ", n) + "1" + strings.Repeat(" THEN 1 END", n) },
-				"subquery": func(n int) string { return "SELECT 1 FROM t WHERE 1 IN " + strings.Repeat("(SELECT 1 FROM t WHERE 1 IN ", n) + "(1)" + strings.Repeat(")", n) },
-				"array":    func(n int) string { return "SELECT " + strings.Repeat("ARRAY[", n) + "1" + strings.Repeat("]", n) },
-				"sign":     func(n int) string { return "SELECT " + strings.Repeat("- ", n) + "1" },
+				"parens": func(n int) string { return "SELECT " + strings.Repeat("(", n) + "1" + strings.Repeat(")", n) },
+				"calls":  func(n int) string { return "SELECT " + strings.Repeat("f(", n) + "1" + strings.Repeat(")", n) },
+				"case": func(n int) string {
+					return "SELECT " + strings.Repeat("CASE WHEN ", n) + "1" + strings.Repeat(" THEN 1 END", n)
+				},
+				"subquery": func(n int) string {
+					return "SELECT 1 FROM t WHERE 1 IN " + strings.Repeat("(SELECT 1 FROM t WHERE 1 IN ", n) + "(1)" + strings.Repeat(")", n)
+				},
+				"array": func(n int) string { return "SELECT " + strings.Repeat("ARRAY[", n) + "1" + strings.Repeat("]", n) },
+				"sign":  func(n int) string { return "SELECT " + strings.Repeat("- ", n) + "1" },
 			}
 			for k, f := range fam {
 				k, f := k, f
